@@ -47,8 +47,9 @@ def get_opt_0_table(lmax, mmax, uf, ub, print_table=None):
         opt[m].append(ub)
     for m in range(1, mmax + 1):
         opt[m].append(uf + 2 * ub)
-    for l in range(2, lmax + 1):  # noqa: E741
-        opt[1].append((l+1) * ub + l * (l + 1) / 2 * uf)
+    if mmax >= 1:
+        for l in range(2, lmax + 1):  # noqa: E741
+            opt[1].append((l+1) * ub + l * (l + 1) / 2 * uf)
     # Compute everything
     for m in range(2, mmax + 1):
         for l in range(2, lmax + 1):  # noqa: E741
